@@ -889,4 +889,24 @@ theorem globLang_iff_glob (p : Str) : ∀ s, GlobLang (parseGlob p) s ↔ Glob p
               | openBracket => exact absurd rfl h91
               | lit _ _ _ _ g => exact .lit c ((ihp _).2 g)
 
+
+/-! ## unique_size and `List.eraseDups` -/
+
+section
+variable {α : Type} [DecidableEq α]
+theorem nodup_eraseDups (l : List α) : l.eraseDups.Nodup := by
+  induction h : l.length using Nat.strong_induction_on generalizing l with
+  | _ n ih =>
+    cases l with
+    | nil => simp
+    | cons a as =>
+      rw [List.eraseDups_cons, List.nodup_cons]
+      constructor
+      · rw [List.mem_eraseDups]; simp
+      · exact ih _ (by simp at h; have := List.length_filter_le (fun b => !b == a) as; omega) _ rfl
+
+theorem unique_size_eraseDups (a : List α) : uniqueSize a = a.eraseDups.length :=
+  unique_size_spec a a.eraseDups (nodup_eraseDups a) (fun x => List.mem_eraseDups)
+end
+
 end Cel.C7n
